@@ -312,3 +312,205 @@ Proof.
   unfold loads. destruct (run_rows bad init_state (rows_of_text text)) as [s| |] eqn:H; try discriminate.
   intros E. injection E as <-. exact (s_tree _ (run_rows_ok _ _ _ _ init_state_ok H)).
 Qed.
+
+(* ------------------------------------------------------------------ headers: every node that has a header points to a
+   HeaderToken node created no later than itself, and a node either is its own header or inherits its parent's *)
+Definition is_header_node (d : doc) (h : nat) : Prop := exists e sp, n_tok (get_node d h) = Some (THeader e sp) /\ n_header (get_node d h) = Some h.
+
+Definition hdr_ok (d : doc) : Prop :=
+  forall i h, i < List.length (d_nodes d) -> n_header (get_node d i) = Some h ->
+    h <= i /\ is_header_node d h /\
+    (h = i \/ exists p, n_parent (get_node d i) = Some p /\ n_header (get_node d p) = Some h).
+
+Lemma hdr_ok_empty : hdr_ok empty_doc.
+Proof. intros i h Hi. simpl in Hi. assert (i = 0) by lia. subst. discriminate. Qed.
+
+Definition same_nodes_hdr (d d' : doc) : Prop :=
+  List.length (d_nodes d') = List.length (d_nodes d) /\
+  forall i, core (get_node d' i) = core (get_node d i) /\ n_header (get_node d' i) = n_header (get_node d i).
+
+Lemma hdr_ok_same d d' : same_nodes_hdr d d' -> hdr_ok d -> hdr_ok d'.
+Proof.
+  intros [L H] Hd i h Hi Hh. rewrite L in Hi. destruct (H i) as [Ci Hi']. rewrite Hi' in Hh.
+  destruct (Hd i h Hi Hh) as [A [[e [sp [B1 B2]]] C]]. split; [exact A|]. split.
+  - exists e, sp. destruct (H h) as [Ch Hh']. unfold core in Ch. injection Ch as _ _ Et _ _. rewrite Et, Hh'. split; assumption.
+  - destruct C as [C|[p [P1 P2]]]; [left; exact C|]. right. exists p. unfold core in Ci. injection Ci as _ _ _ Ep _.
+    rewrite Ep. split; [exact P1|]. destruct (H p) as [_ ->]. exact P2.
+Qed.
+
+Lemma update_self_hdr (d : doc) id (f : node -> node) :
+  (forall n, core (f n) = core n /\ n_header (f n) = n_header n) ->
+  same_nodes_hdr d (set_nodes d (update_nth id f (d_nodes d))).
+Proof.
+  intros Hf. split; [simpl; apply update_nth_length|]. intros i. unfold get_node. simpl.
+  destruct (Nat.eq_dec id i) as [->|Hne].
+  - destruct (Nat.lt_ge_cases i (List.length (d_nodes d))) as [Hl|Hl].
+    + rewrite nth_update_nth_eq by exact Hl. apply Hf.
+    + rewrite !nth_overflow; [split; reflexivity | exact Hl | rewrite update_nth_length; exact Hl].
+  - rewrite nth_update_nth_neq by exact Hne. split; reflexivity.
+Qed.
+
+Lemma hdr_same_sig d id c : same_nodes_hdr d (sig_update d id c).
+Proof. apply update_self_hdr. intros n. split; reflexivity. Qed.
+Lemma hdr_same_refl d : same_nodes_hdr d d.
+Proof. split; [reflexivity | intros i; split; reflexivity]. Qed.
+Lemma hdr_same_cancel d a b : same_nodes_hdr d (set_cancelled d a b). Proof. split; [reflexivity | intros i; split; reflexivity]. Qed.
+Lemma hdr_same_error d id : same_nodes_hdr d (add_error d id). Proof. split; [reflexivity | intros i; split; reflexivity]. Qed.
+Lemma hdr_same_hstage d st : same_nodes_hdr d (set_header_stage d st). Proof. split; [reflexivity | intros i; split; reflexivity]. Qed.
+Lemma hdr_same_mst d st : same_nodes_hdr d (push_mst d st). Proof. split; [reflexivity | intros i; split; reflexivity]. Qed.
+Lemma hdr_same_trans a b c : same_nodes_hdr a b -> same_nodes_hdr b c -> same_nodes_hdr a c.
+Proof.
+  intros [L1 H1] [L2 H2]. split; [congruence|]. intros i. destruct (H1 i) as [A1 B1], (H2 i) as [A2 B2]. split; congruence.
+Qed.
+
+(* a new node that inherits the header of its (existing) parent *)
+Lemma hdr_ok_add_inherit d st p t lo sg d' id : tree_ok d -> hdr_ok d -> p < List.length (d_nodes d) ->
+  add_node d st p t lo sg (n_header (get_node d p)) = IOk (d', id) -> hdr_ok d'.
+Proof.
+  intros T Hd Hp Ha. destruct (add_node_spec _ _ _ _ _ _ _ _ _ T Hp Ha) as [Eid [El [T1 [Ep [Et [Eh [_ [_ Hold]]]]]]]].
+  intros i h Hi Hh. rewrite El in Hi.
+  assert (Keep : forall j, j < id -> n_header (get_node d' j) = n_header (get_node d j) /\ n_tok (get_node d' j) = n_tok (get_node d j)
+                                     /\ n_parent (get_node d' j) = n_parent (get_node d j)).
+  { intros j Hj. destruct (Hold j Hj) as [C H']. unfold core in C. injection C as _ _ Ct Cp _. repeat split; assumption. }
+  assert (Hdr' : forall x, x < id -> is_header_node d x -> is_header_node d' x).
+  { intros x Hx [e [sp [B1 B2]]]. exists e, sp. destruct (Keep x Hx) as [K1 [K2 _]]. rewrite K1, K2. split; assumption. }
+  destruct (Nat.eq_dec i id) as [->|Hne].
+  - rewrite Eh in Hh. assert (Hpid : p < id) by lia.
+    destruct (Hd p h Hp Hh) as [A [B _]]. split; [lia|]. split; [apply Hdr'; [lia | exact B]|].
+    right. exists p. split; [exact Ep|]. destruct (Keep p Hpid) as [-> _]. exact Hh.
+  - assert (Hi' : i < id) by lia. destruct (Keep i Hi') as [K1 [_ K3]]. rewrite K1 in Hh. rewrite Eid in Hi'.
+    destruct (Hd i h Hi' Hh) as [A [B C]]. rewrite <- Eid in Hi'. split; [exact A|]. split; [apply Hdr'; [lia | exact B]|].
+    destruct C as [C|[q [Q1 Q2]]]; [left; exact C|]. right. exists q. rewrite K3. split; [exact Q1|].
+    assert (Hq : q < i) by (destruct (t_parent d T i q ltac:(lia) Q1); assumption).
+    destruct (Keep q ltac:(lia)) as [-> _]. exact Q2.
+Qed.
+
+(* a new node without header (global comments) *)
+Lemma hdr_ok_add_none d st p t lo sg d' id : tree_ok d -> hdr_ok d -> p < List.length (d_nodes d) ->
+  add_node d st p t lo sg None = IOk (d', id) -> hdr_ok d'.
+Proof.
+  intros T Hd Hp Ha. destruct (add_node_spec _ _ _ _ _ _ _ _ _ T Hp Ha) as [Eid [El [T1 [Ep [Et [Eh [_ [_ Hold]]]]]]]].
+  intros i h Hi Hh. rewrite El in Hi.
+  assert (Keep : forall j, j < id -> n_header (get_node d' j) = n_header (get_node d j) /\ n_tok (get_node d' j) = n_tok (get_node d j)
+                                     /\ n_parent (get_node d' j) = n_parent (get_node d j)).
+  { intros j Hj. destruct (Hold j Hj) as [C H']. unfold core in C. injection C as _ _ Ct Cp _. repeat split; assumption. }
+  destruct (Nat.eq_dec i id) as [->|Hne]; [rewrite Eh in Hh; discriminate|].
+  assert (Hi' : i < id) by lia. destruct (Keep i Hi') as [K1 [_ K3]]. rewrite K1 in Hh. rewrite Eid in Hi'.
+  destruct (Hd i h Hi' Hh) as [A [[e [sp [B1 B2]]] C]]. rewrite <- Eid in Hi'. split; [exact A|]. split.
+  - exists e, sp. destruct (Keep h ltac:(lia)) as [K1' [K2' _]]. rewrite K1', K2'. split; assumption.
+  - destruct C as [C|[q [Q1 Q2]]]; [left; exact C|]. right. exists q. rewrite K3. split; [exact Q1|].
+    assert (Hq : q < i) by (destruct (t_parent d T i q ltac:(lia) Q1); assumption).
+    destruct (Keep q ltac:(lia)) as [-> _]. exact Q2.
+Qed.
+
+(* a header cell: the new node becomes its own header *)
+Lemma hdr_ok_add_header d st p e sp d' id : tree_ok d -> hdr_ok d -> p < List.length (d_nodes d) ->
+  add_node d st p (THeader e sp) None [] None = IOk (d', id) -> hdr_ok (set_header_self d' id).
+Proof.
+  intros T Hd Hp Ha. destruct (add_node_spec _ _ _ _ _ _ _ _ _ T Hp Ha) as [Eid [El [T1 [Ep [Et [Eh [_ [_ Hold]]]]]]]].
+  assert (Hlen : List.length (d_nodes (set_header_self d' id)) = S id) by (simpl; rewrite update_nth_length; exact El).
+  assert (Hnew : get_node (set_header_self d' id) id = {| n_id := n_id (get_node d' id); n_stage := n_stage (get_node d' id);
+            n_tok := n_tok (get_node d' id); n_parent := n_parent (get_node d' id); n_header := Some id; n_lastop := n_lastop (get_node d' id);
+            n_sigs := n_sigs (get_node d' id); n_children := n_children (get_node d' id) |}).
+  { unfold get_node, set_header_self. simpl. rewrite nth_update_nth_eq by lia. reflexivity. }
+  assert (Hother : forall j, j <> id -> get_node (set_header_self d' id) j = get_node d' j).
+  { intros j Hj. unfold get_node, set_header_self. simpl. apply nth_update_nth_neq. lia. }
+  assert (Keep : forall j, j < id -> n_header (get_node d' j) = n_header (get_node d j) /\ n_tok (get_node d' j) = n_tok (get_node d j)
+                                     /\ n_parent (get_node d' j) = n_parent (get_node d j)).
+  { intros j Hj. destruct (Hold j Hj) as [C H']. unfold core in C. injection C as _ _ Ct Cp _. repeat split; assumption. }
+  intros i h Hi Hh. rewrite Hlen in Hi.
+  destruct (Nat.eq_dec i id) as [->|Hne].
+  - rewrite Hnew in Hh. cbn [n_header] in Hh. injection Hh as <-. split; [lia|]. split; [|left; reflexivity].
+    exists e, sp. rewrite Hnew. cbn [n_tok n_header]. split; [exact Et | reflexivity].
+  - assert (Hi' : i < id) by lia. rewrite (Hother i Hne) in Hh. destruct (Keep i Hi') as [K1 [_ K3]]. rewrite K1 in Hh. rewrite Eid in Hi'.
+    destruct (Hd i h Hi' Hh) as [A [[e' [sp' [B1 B2]]] C]]. rewrite <- Eid in Hi'. split; [exact A|]. split.
+    + exists e', sp'. rewrite (Hother h ltac:(lia)). destruct (Keep h ltac:(lia)) as [K1' [K2' _]]. rewrite K1', K2'. split; assumption.
+    + destruct C as [C|[q [Q1 Q2]]]; [left; exact C|]. right. exists q. rewrite (Hother i Hne), K3. split; [exact Q1|].
+      assert (Hq : q < i) by (destruct (t_parent d T i q ltac:(lia) Q1); assumption).
+      rewrite (Hother q ltac:(lia)). destruct (Keep q ltac:(lia)) as [-> _]. exact Q2.
+Qed.
+
+Ltac hdr_same := first [apply hdr_same_sig | apply hdr_same_cancel | apply hdr_same_error | apply hdr_same_hstage | apply hdr_same_mst | apply hdr_same_refl].
+
+Lemma step_cell_hdr bad row s icol col s' b : state_ok s -> hdr_ok (i_doc s) -> step_cell bad row s icol col = IOk (s', b) -> hdr_ok (i_doc s').
+Proof.
+  intros [T Hn Hp Hh] Hd. unfold step_cell.
+  assert (H0 : 0 < List.length (d_nodes (i_doc s))) by apply T.
+  destruct (startswith "**" col).
+  - destruct (add_node _ _ _ _ _ _ _) as [[d1 id]| |] eqn:Ha; try discriminate.
+    assert (T0 : tree_ok (set_header_stage (i_doc s) (i_stage s))) by (eapply tree_ok_same_links; [links | exact T]).
+    assert (Hd0 : hdr_ok (set_header_stage (i_doc s) (i_stage s))) by (eapply hdr_ok_same; [hdr_same | exact Hd]).
+    intros H. injection H as <- <-. unfold push_next, set_doc. cbn [i_doc].
+    exact (hdr_ok_add_header _ _ _ _ _ _ _ T0 Hd0 Hh Ha).
+  - destruct (mem_str col spine_operations).
+    + destruct (i_prev s) as [prev|] eqn:Ep; [|discriminate].
+      destruct (Nat.leb _ icol); [discriminate|].
+      assert (Hpar : nth icol prev 0 < List.length (d_nodes (i_doc s))) by (apply nth_ids_ok; assumption).
+      destruct (add_node _ _ _ _ _ _ _) as [[d1 id]| |] eqn:Ha; try discriminate.
+      pose proof (hdr_ok_add_inherit _ _ _ _ _ _ _ _ T Hd Hpar Ha) as H1.
+      assert (Gen : forall d2, same_nodes_hdr d1 d2 -> hdr_ok d2) by (intros d2 S2; eapply hdr_ok_same; eassumption).
+      destruct (String.eqb col "*-").
+      { intros H. injection H as <- <-. unfold set_doc. cbn [i_doc]. apply Gen. destruct (n_lastop _); hdr_same. }
+      destruct (String.eqb col "*+" || String.eqb col "*^").
+      { intros H. injection H as <- <-. exact H1. }
+      destruct (String.eqb col "*v"); [|discriminate].
+      intros H. injection H as <- <-.
+      destruct (match icol with O => true | S _ => _ end); unfold push_next, set_doc; cbn [i_doc]; apply Gen; destruct (n_lastop _); hdr_same.
+    + match goal with |- context [match ?X with IOk _ => _ | IErr _ => _ | IOut => _ end = _] => destruct X as [[tok is_err]| |] end;
+        try discriminate.
+      destruct (i_prev s) as [prev|] eqn:Ep; [|discriminate].
+      destruct (Nat.leb _ icol); [discriminate|].
+      assert (Hpar : nth icol prev 0 < List.length (d_nodes (i_doc s))) by (apply nth_ids_ok; assumption).
+      destruct (add_node _ _ _ _ _ _ _) as [[d1 id]| |] eqn:Ha; try discriminate.
+      pose proof (hdr_ok_add_inherit _ _ _ _ _ _ _ _ T Hd Hpar Ha) as H1.
+      intros H. injection H as <- <-. unfold push_next, set_doc. cbn [i_doc].
+      set (d2 := if is_err then add_error d1 id else d1).
+      assert (S2 : same_nodes_hdr d1 d2) by (unfold d2; destruct is_err; hdr_same).
+      eapply hdr_ok_same; [|exact H1].
+      destruct (cat_beq _ BARLINES || _); [exact S2|]. destruct (String.eqb _ "BoundingBoxToken"); [exact S2|].
+      destruct (is_signature_token tok); [eapply hdr_same_trans; [exact S2 | hdr_same] | exact S2].
+Qed.
+
+Lemma step_cells_hdr bad row : forall cols s icol bar s' b, state_ok s -> hdr_ok (i_doc s) ->
+  step_cells bad row s icol cols bar = IOk (s', b) -> hdr_ok (i_doc s').
+Proof.
+  induction cols as [|c cols IH]; intros s icol bar s' b Hs Hd; simpl.
+  - intros H. injection H as <- <-. exact Hd.
+  - destruct (step_cell bad row s icol c) as [[s1 b1]| |] eqn:Hc; try discriminate.
+    intros H. eapply IH; [eapply step_cell_ok; eassumption | eapply step_cell_hdr; eassumption | exact H].
+Qed.
+
+Lemma step_row_hdr bad s row s' : state_ok s -> hdr_ok (i_doc s) -> step_row bad s row = IOk s' -> hdr_ok (i_doc s').
+Proof.
+  intros Hs Hd. pose proof Hs as [T Hn Hp Hh]. unfold step_row. destruct row as [|first rest].
+  - intros H. injection H as <-. exact Hd.
+  - set (prev := match i_next s with [] => i_prev s | n :: l0 => Some (n :: l0) end).
+    assert (Hprev : match prev with Some l => ids_ok (i_doc s) l | None => True end).
+    { unfold prev. destruct (i_next s) eqn:E; [exact Hp | exact Hn]. }
+    clearbody prev.
+    destruct (startswith "!!" first).
+    + destruct (add_node _ _ _ _ _ _ _) as [[d1 id]| |] eqn:Ha; try discriminate. cbn [i_doc i_prehdr] in Ha.
+      intros H. injection H as <-. cbn [i_doc]. exact (hdr_ok_add_none _ _ _ _ _ _ _ _ T Hd Hh Ha).
+    + match goal with |- context [step_cells bad ?r ?s0 0 ?r false] =>
+        assert (Hs0 : state_ok s0) by (apply state_ok_intro; [exact T | apply ids_ok_nil | exact Hprev | exact Hh]);
+        assert (Hd0 : hdr_ok (i_doc s0)) by exact Hd;
+        destruct (step_cells bad r s0 0 r false) as [[s1 bar]| |] eqn:Hc end; try discriminate.
+      pose proof (step_cells_hdr _ _ _ _ _ _ _ _ Hs0 Hd0 Hc) as H1.
+      intros H. injection H as <-. cbn [i_doc]. destruct bar; [eapply hdr_ok_same; [hdr_same | exact H1] | exact H1].
+Qed.
+
+Theorem run_rows_hdr bad : forall rows s s', state_ok s -> hdr_ok (i_doc s) -> run_rows bad s rows = IOk s' -> hdr_ok (i_doc s').
+Proof.
+  induction rows as [|r rows IH]; intros s s' Hs Hd; simpl; [intros H; injection H as <-; exact Hd|].
+  destruct (step_row bad s r) as [s1| |] eqn:Hr; try discriminate.
+  intros H. eapply IH; [eapply step_row_ok; eassumption | eapply step_row_hdr; eassumption | exact H].
+Qed.
+
+(* every node of an imported document that has a header points to a HeaderToken node created no later than itself,
+   and either is that header or inherits it from its parent - so a whole spine path (through splits and joins)
+   carries the header of the column it started in *)
+Theorem loads_headers bad text d : loads bad text = IOk d -> hdr_ok d.
+Proof.
+  unfold loads. destruct (run_rows bad init_state (rows_of_text text)) as [s| |] eqn:H; try discriminate.
+  intros E. injection E as <-. exact (run_rows_hdr _ _ _ _ init_state_ok hdr_ok_empty H).
+Qed.
